@@ -5,6 +5,7 @@ import (
 	"encoding/json"
 	"errors"
 	"fmt"
+	"math"
 	"reflect"
 	"strings"
 	"time"
@@ -266,6 +267,9 @@ func (ts *Time) UnmarshalJSON(data []byte) error {
 	}
 	switch x := v.(type) {
 	case float64:
+		if x >= math.MaxInt64 || x < math.MinInt64 {
+			return fmt.Errorf("oidc.Time: %v out of range", x)
+		}
 		*ts = Time(x)
 	case string:
 		// Compatibility with Auth0:
